@@ -2,13 +2,13 @@ SPECIFICATION Spec
 CONSTANTS
   Denoms = {"eth"}
   Mods <- Mods0
-  AddrMode = "simple"
+  AddrMode = "percode"
   MaxTx = 3
-  Fuel = 2
-  Level = 1
-  Genesis <- Genesis0
-  CallMenu <- RegCalls
-  BehMenu <- RegMenu
+  Fuel = 3
+  Level = 2
+  Genesis <- GenesisPC
+  CallMenu <- PcCalls
+  BehMenu <- PcMenu
 VIEW view
 INVARIANTS InvAtomic InvEffective InvReads InvReply InvEvents InvScriptUsed InvOneRespPerMsg InvPrivate
 CHECK_DEADLOCK FALSE
